@@ -1,6 +1,7 @@
 (* C16 - Flattening preserves geometry and subpath structure.
    PARTIAL: structure is proved (with lyon's per-curve points as an oracle input of the model); the deviation bound
-   (8 x tolerance) is checked numerically on every output of the crate, not proved. *)
+   (8 x tolerance) is checked numerically on every output of the crate, not proved.
+   Further down (PathShape.v): flatten op by op, MoveTo/LineTo/Close preserved, cursor preserved (also fill's), idempotence. *)
 Require Import RQ.Base RQ.F32 RQ.Raster RQ.PathF RQ.PathOps RQ.MiscProofs.
 
 Theorem C16_only_lines_partial : forall ops oracle cur start, forallb flat_op (flatten_ops ops oracle cur start) = true.
